@@ -535,6 +535,10 @@ class ArrayWorld(object):
         if self.too_large(operands):
             self.count("skipped_too_large")
             return "skipped"
+        if opname in ("flatten", "reshape", "to_list", "probe") and any(getattr(self.objs.get(i), "size", 0) > 2000 for i in operands):
+            # a grouped axis recomputes its n tuple labels on every access: element-wise walks over it are quadratic
+            self.count("skipped_grouped_axis_too_long")
+            return "skipped"
         c15 = "C15" in self.props
         c05 = "C05" in self.props
         c16 = "C16" in self.props
